@@ -240,9 +240,9 @@ def plan(prog, table, tier):
             elif argc == 2: kinds = KINDS if not quick else KINDS_SMALL + ['bigint', 'improper', 'string0', 'lambda']
             elif argc == 3: kinds = KINDS_SMALL if not quick else ['fixnum', 'string1', 'vector2', 'char']
             else: kinds = ['fixnum', 'string1', 'vector2']
-            # a symbolic double against boundary fixnums costs seconds per query (float -> int conversion circuits):
-            # with two or more arguments the first float is symbolic only in the thorough tier
-            jobs.append(('builtin %s argc=%d' % (p, argc), make_builtin_harness(prog, table, p, kinds, argc, sym_float=(argc <= 1 or not quick)), on_panic))
+            # a symbolic double against boundary fixnums costs seconds per query (float -> int conversion circuits; number->string with a
+            # symbolic double and a radix took 33 min and still met an unsupported construct): with two or more arguments doubles come from the palette
+            jobs.append(('builtin %s argc=%d' % (p, argc), make_builtin_harness(prog, table, p, kinds, argc, sym_float=(argc <= 1)), on_panic))
     return jobs
 
 
